@@ -188,8 +188,11 @@ def run(ctx: Ctx) -> None:
     r.check(sorted(nm) == want_n, "ToyParser._no_address_mnemonics", p.loc(), f"_no_address_mnemonics {sorted(nm)} != remaining classes {want_n}")
     # parser looks the class up by upper-cased mnemonic and dispatches on AddressTypeInstruction
     li = m.method(p, "_load_instructions", own=True)
-    txt = " ".join(ast.unparse(li.node).split())
-    r.check("instruction_map[mnemonic]" in txt and "tokens.mnemonic.upper()" in txt and "issubclass(instruction_class, AddressTypeInstruction)" in txt,
+    from ..parsershape import normal_flow
+    lfl = normal_flow(m, li)
+    alltxt = " ".join(lfl.canon(e.expr) + " | " + lfl.canon_cond(e.cond) for e in lfl.effects)
+    CLS = "instruction_map[ELEM1.2(P0.text).mnemonic.upper()]"
+    r.check(f"{CLS}(address=" in alltxt and f"{CLS}()" in alltxt and f"issubclass({CLS}, AddressTypeInstruction)" in alltxt,
             "ToyParser._load_instructions|dispatch", li.loc(), "parser no longer instantiates instruction_map[MNEMONIC] by address/no-address kind")
     # micro program
     mp = m.cls("MicroProgram")
@@ -323,13 +326,22 @@ def fields_rule(ctx: Ctx, rid: str = "R19.fields") -> None:
     for n in fi.node.body:
         if isinstance(n, ast.Assign) and isinstance(n.targets[-1], ast.Name) and n.targets[-1].id in ("opcode", "address"):
             dec[n.targets[-1].id] = n.value
-    if set(dec) != {"opcode", "address"}:
-        raise AnalysisError("anchor vanished: from_integer field extraction")
     arg = fi.params[1]
-    do = ev(dec["opcode"], {arg: Form.var("w")})
-    da = ev(dec["address"], {arg: Form.var("w")})
-    r.check(do == Form.field("w", 12, 16), "from_integer.opcode", fi.loc(), f"decoded opcode is {do.describe()}, expected bits 12..15 of the word")
-    r.check(da == Form.field("w", 0, 12), "from_integer.address", fi.loc(), f"decoded address is {da.describe()}, expected bits 0..11 of the word")
+    if set(dec) == {"opcode", "address"}:
+        do = ev(dec["opcode"], {arg: Form.var("w")})
+        da = ev(dec["address"], {arg: Form.var("w")})
+        r.check(do == Form.field("w", 12, 16), "from_integer.opcode", fi.loc(), f"decoded opcode is {do.describe()}, expected bits 12..15 of the word")
+        r.check(da == Form.field("w", 0, 12), "from_integer.address", fi.loc(), f"decoded address is {da.describe()}, expected bits 0..11 of the word")
+    else:
+        # no locals of that name: read the fields off the abstract runs of the decoder (one per opcode k, word = k*2**12 + a):
+        # opcode k must construct the class of opcode k (R19.tab), and every address-type constructor must be handed a = bits 0..11
+        chain, _default, total = decode_chain(ctx)
+        dargs = ctx.__dict__.get("_toy_decode_args", {})
+        atc_ = m.cls("AddressTypeInstruction")
+        bad = [(k, a[0].describe() if a and a[0] is not None else "?") for k, (c, call) in sorted(chain.items())
+               if m.is_subclass(c, atc_) and not (dargs.get(k) and dargs[k][0] is not None and dargs[k][0] == Form.field("a", 0, 12)) for a in [dargs.get(k)]]
+        r.check(total, "from_integer.opcode", fi.loc(), "the decoder does not construct exactly one instruction for each of the 16 opcode values (bits 12..15 of the word)")
+        r.check(not bad, "from_integer.address", fi.loc(), f"decoded address is not bits 0..11 of the word for opcodes {bad}")
     for name, want_f in (("op_code_value", Form.field("w", 12, 16)), ("address_section_value", Form.field("w", 0, 12))):
         g = m.method(ti, name, own=True)
         rets = [n for n in walk_no_nested(g.node) if isinstance(n, ast.Return)]
@@ -403,14 +415,18 @@ def asm_rule(ctx: Ctx, rid: str = "R19.asm") -> None:
                 "(a declaration line binds its label, an instruction line its in-line label, both to the address of the next instruction)")
     r.check(not late, "ToyParser._process_labels|bind-before-advance", pl.loc(late[0].node) if late else pl.loc(loop),
             "a label is bound after the address was advanced past its own line")
-    ptxt = " ".join(ast.unparse(pl.node).split())
-    r.check("for line_number, line, tokens in self.token_list" in ptxt, "ToyParser._process_labels|scope", pl.loc(),
+    r.check(isinstance(loop.iter, ast.Attribute) and loop.iter.attr == "token_list", "ToyParser._process_labels|scope", pl.loc(),
             "labels are not computed over the whole token list (segment order would matter)")
     # operand resolution: `label` is also bound by an in-line label declaration, so the operand may only be
     # read from tokens.label when no numeric operand was given
     from ..guards import facts_of
     from ..paths import function_paths, event_exprs
     n_lab = 0
+    tloop = next((n for n in ast.walk(li.node) if isinstance(n, ast.For) and ast.unparse(n.iter) == f"{li.params[0]}.text" and isinstance(n.target, ast.Tuple)
+                  and len(n.target.elts) == 3 and isinstance(n.target.elts[2], ast.Name)), None)
+    if tloop is None:
+        raise AnalysisError("anchor vanished: `for .. in self.text` in ToyParser._load_instructions")
+    tk = tloop.target.elts[2].id
     for p_ in function_paths(li.node):
         facts: set = set()
         for e in p_.events:
@@ -418,9 +434,9 @@ def asm_rule(ctx: Ctx, rid: str = "R19.asm") -> None:
                 facts |= facts_of(e.node, bool(e.pol))
             for x in event_exprs(e):
                 for sb in ast.walk(x):
-                    if isinstance(sb, ast.Subscript) and ast.unparse(sb.value) == "self.labels" and ast.unparse(sb.slice) == "tokens.label":
+                    if isinstance(sb, ast.Subscript) and ast.unparse(sb.value) == f"{li.params[0]}.labels" and ast.unparse(sb.slice) == f"{tk}.label":
                         n_lab += 1
-                        ok = ("tokens.address", False) in facts
+                        ok = (f"{tk}.address", False) in facts
                         if not ok:
                             r.viol("ToyParser._load_instructions|operand-kind", li.loc(sb), "the operand is taken from tokens.label without first "
                                    "establishing that no numeric operand was given; an in-line label declaration binds the same results name, "
